@@ -162,6 +162,8 @@ class Summ:
                 t, pol = t[1], not pol
             if isinstance(t, tuple) and len(t) == 3 and t[0] == '!=':
                 t, pol = ('==',) + t[1:], not pol
+            if isinstance(t, tuple) and len(t) == 3 and t[0] == '<=':
+                t, pol = ('<', t[2], t[1]), not pol
             if t in ('TRUE', 'FALSE') and pol is False:
                 t, pol = ('FALSE' if t == 'TRUE' else 'TRUE'), True
             return ('if', t, pol)
